@@ -756,9 +756,13 @@ class Duration(metaclass=_DurationMeta):
             #  Noda Time has the following comment:
             #  "No precondition here, as we cover a wider range than Int64 ticks can handle..."
             #  If this ever changes, the test_factory_methods_out_of_range test will need changed too.
-            days, tick_of_day = _TickArithmetic.ticks_to_days_and_tick_of_day(ticks)
             return cls.__ctor(
-                days=days, nano_of_day=tick_of_day * PyodaConstants.NANOSECONDS_PER_TICK, no_validation=True
+                units=ticks,
+                param_name="ticks",
+                min_value=cls._MIN_DAYS * PyodaConstants.TICKS_PER_DAY,
+                max_value=((cls._MAX_DAYS + 1) * PyodaConstants.TICKS_PER_DAY) - 1,
+                units_per_day=PyodaConstants.TICKS_PER_DAY,
+                nanos_per_unit=PyodaConstants.NANOSECONDS_PER_TICK,
             )
 
         _Preconditions._check_argument_range(
